@@ -33,7 +33,10 @@ Definition elabel (l : label) : list Z := Z.of_nat (length l) :: map Z.of_N l.
 Definition elist {A} (e : A -> list Z) (l : list A) : list Z := Z.of_nat (length l) :: flat_map e l.
 Definition err_code (e : err) : Z :=
   match e with EFloatingGround => 1 | EAmbiguousIDs => 2 | EKeyError => 3 | ESingular => 4
-             | EValue => 5 | EAttribute => 6 | EOther => 7 end%Z.
+             | EValue => 5 | EAttribute => 6 | EOther => 7
+             | EMultipleGround => 8 | EAmbiguousComponent => 9 | ETypeError => 10 | EZeroDivision => 11
+             | EFileFormat => 12 | EFileExists => 13 | EUnknownWavetype => 14 | EUnidentified => 15
+             | EIncorrectInfo => 16 | EUnknownComponent => 17 | EIndex => 18 end%Z.
 Definition eres {A} (e : A -> list Z) (r : res A) : list Z :=
   match r with Ok a => 0%Z :: e a | Err x => [1%Z; err_code x] end.
 Definition ebool (b : bool) : list Z := [if b then 1%Z else 0%Z].
